@@ -296,7 +296,7 @@ def find_node(program, clsname):
 STYLES = [("=", ", ", ""), (" = ", ", ", ""), (" =", ",", ""), ("= ", ",  ", " "), ("  =  ", " , ", "  "), ("\t=\t", ",\t", "")]
 
 
-def eval_shape(classes, key, posnames, kwnames, varmode=None, style=0, zero=None, after=False):
+def eval_shape(classes, key, posnames, kwnames, varmode=None, style=0, zero=None, after=False, none=None):
     """Returns (status, info): status in {'python-rejects','rejected','ok','fail'}; info carries failure or emitted text + bound key."""
     from Reduino.transpile.emitter import emit
     from Reduino.transpile.parser import parse
@@ -306,6 +306,9 @@ def eval_shape(classes, key, posnames, kwnames, varmode=None, style=0, zero=None
     sig, target = signature_of(classes, owner, method)
     values = dict(spec["values"])
     values.update({k: v for k, v in HOST_ONLY_VALUES.items() if k in sig.parameters})
+    if none is not None and none in sig.parameters and sig.parameters[none].default is None:
+        # the signature's own default written out: Python binds it exactly like the omitted argument
+        values[none] = None
     if zero is not None and isinstance(values.get(zero), (bool, int, float)):
         # the falsy value of the parameter's type: "supplied, and zero" must not be read as "not supplied"
         values[zero] = type(values[zero])(0)
@@ -334,7 +337,7 @@ def eval_shape(classes, key, posnames, kwnames, varmode=None, style=0, zero=None
         prefix = [full_call_text(classes, k2) for k2 in SPECS if k2[0] == owner and k2[1] is not None and k2[1] not in ("flash_pattern", "glyph", "melody", "animate")]
     prefix = prefix or None
     script = build_script(owner, method, call_args, spec, "\n".join(prelude_lines), prefix)
-    case = {"after": bool(prefix), "owner": owner, "method": method, "pos": posnames, "kw": kwnames, "var": sorted(k for k, v in varmode.items() if v), "script": script, "style": style, "zero": zero}
+    case = {"after": bool(prefix), "owner": owner, "method": method, "pos": posnames, "kw": kwnames, "var": sorted(k for k, v in varmode.items() if v), "script": script, "style": style, "zero": zero, "none": none}
     try:
         prog = parse(script)
         text = emit(prog)
@@ -410,13 +413,19 @@ def run_shard(name, seed, tier, **kw):
                 # the same shape with one supplied argument at the falsy value of its type (rotating over the arguments; all of them in the thorough tier)
                 zs = supplied if tier != "quick" else [supplied[i % len(supplied)], (kwnames or supplied)[i % len(kwnames or supplied)]]
                 work += [(posnames, kwnames, 0, z, False) for z in dict.fromkeys(zs)]
+            cands = [pn for pn in supplied if sig.parameters[pn].default is None]
+            for pn in (cands if tier != "quick" else cands[i % len(cands): i % len(cands) + 1] if cands else []):
+                work.append((posnames, kwnames, 0, None, False, pn))
             if key[1] is not None and len(supplied) < len(sig.parameters):
                 # a shape that leaves defaults out, placed after full calls of every method of the device in the same block
                 work.append((posnames, kwnames, 0, None, True))
         for item in work:
             posnames, kwnames, sty, zero = item[:4]
             after = item[4] if len(item) > 4 else False
-            st_, info = eval_shape(classes, key, posnames, kwnames, style=sty, zero=zero, after=after)
+            none = item[5] if len(item) > 5 else None
+            st_, info = eval_shape(classes, key, posnames, kwnames, style=sty, zero=zero, after=after, none=none)
+            if none:
+                r.count("explicit_none_default")
             if after:
                 r.count("after_other_calls")
             if sty:
@@ -506,5 +515,5 @@ def replay(case):
                      "expected": "byte-identical C++", "observed": _first_diff(ta, tb)}]
         return []
     varmode = {n: True for n in case.get("var", [])}
-    st_, info = eval_shape(classes, (case["owner"], case["method"]), case["pos"], case["kw"], varmode, style=case.get("style", 0), zero=case.get("zero"), after=case.get("after", False))
+    st_, info = eval_shape(classes, (case["owner"], case["method"]), case["pos"], case["kw"], varmode, style=case.get("style", 0), zero=case.get("zero"), after=case.get("after", False), none=case.get("none"))
     return [info] if st_ == "fail" else []
